@@ -52,7 +52,7 @@ def writeFlags (attrs : Nat) : Nat :=
   O_WRONLY + O_CREATE + (if attrs / attrAppendWrite % 2 = 1 then O_APPEND else 0)
 
 /-- `WriteEfivarsWithGuid` (both implementations): one OpenFile, one Write of attrs‖value, deferred
-    Close whose error is dropped -/
+    Close whose error is reported when nothing else failed -/
 def writeVar (dir : String) (name : List Char) (g : Guid) (attrs : Nat) (value : Bytes) : Prog (Outcome Unit) :=
   .call (.openFile (varPath dir name g) (writeFlags attrs) 0o644) fun r =>
     match r with
@@ -60,9 +60,9 @@ def writeVar (dir : String) (name : List Char) (g : Guid) (attrs : Nat) (value :
     | _ =>
       let buf := le32 attrs ++ value
       .call (.write buf) fun w =>
-        .call .close fun _ =>
+        .call .close fun cl =>
           match w with
-          | .wrote n => if n = buf.length then .ret (.ok ()) else .ret .err
+          | .wrote n => if n = buf.length then (if cl = .fail then .ret .err else .ret (.ok ())) else .ret .err
           | _ => .ret .err
 
 /-- `Attributes.Equal`: every required bit is present in the stored mask -/
@@ -84,10 +84,11 @@ def getVar {α} (dir : String) (name : List Char) (g : Guid) (required : Nat) (d
             | .data ab =>
               if ab.length ≠ 4 then .call .close fun _ => .ret .err else
               .call (.read (sz - 4)) fun v =>
-                .call .close fun _ =>
+                .call .close fun cl =>
                   match v with
                   | .data vb =>
                     if vb.length ≠ sz - 4 then .ret .err else
+                    if cl = .fail then .ret .err else
                     if !attrsSubset required (rd32 ab) then .ret .err else
                     match dec vb with
                     | .ok x => .ret (.ok (rd32 ab, x))
